@@ -24,21 +24,23 @@ Definition v_index (i : Z) (v : view) : view :=
   let d := hd_dim (lay v) in
   mkview (tl (lay v)) (base v + (i * d_stride d - d_offset d)).
 
-(* sliced : D>1 array_ref.hpp:1258-1277 (subtracts the offset), D=1 :2922-2934 (does not) *)
+(* sliced : D>1 array_ref.hpp:1258-1277, D=1 :2922-2934 (layout().slice, layout.hpp:898-909); both move the
+   base by first*stride - offset (the D=1 form since fix 16 of DESIGN section 7) *)
 Definition v_sliced (a b : Z) (v : view) : view :=
   match lay v with
   | [] => v
-  | [d] => mkview [d_slice d a b] (base v + a * d_stride d)
+  | [d] => mkview [d_slice d a b] (base v + (a * d_stride d - d_offset d))
   | d :: sub =>
       mkview (mkdim (d_stride d) (d_offset d) (d_stride d * (b - a)) :: sub)
              (base v + (a * d_stride d - d_offset d))
   end.
 
-(* strided : :1328-1331, :2969-2972 *)
+(* strided : :1328-1331, :2969-2972; the offset is scaled with the stride so that the first valid index is
+   kept (fix 18a of DESIGN section 7; before it the offset was left unscaled) *)
 Definition v_strided (s : Z) (v : view) : view :=
   match lay v with
   | [] => v
-  | d :: sub => mkview (mkdim (d_stride d * s) (d_offset d) (d_nelems d) :: sub) (base v)
+  | d :: sub => mkview (mkdim (d_stride d * s) (d_offset d * s) (d_nelems d) :: sub) (base v)
   end.
 
 (* dropped : :1229-1249, :2901-2915 (neither subtracts the offset) *)
